@@ -2,10 +2,12 @@
 # Offline setup: syntax-check every spec with SANY and byte-compile the harness.
 set -e
 cd "$(dirname "$0")/.."
-for f in spec/*.tla; do
+cd spec
+for f in *.tla; do
   java -cp /opt/veriftools/tla/tla2tools.jar:/opt/veriftools/tla/CommunityModules-deps.jar tla2sany.SANY "$f" >/tmp/verif-sany.$$ 2>&1 || { cat /tmp/verif-sany.$$; rm -f /tmp/verif-sany.$$; echo "SANY failed on $f"; exit 1; }
 done
 rm -f /tmp/verif-sany.$$
+cd ..
 /venv/bin/python -m compileall -q vlib checks tools >/dev/null
 mkdir -p evidence
 echo "setup ok"
